@@ -42,6 +42,8 @@ def render(doc, rng, extras=True):
             out.append("%sP%d %s%s" % (opener, b[1], rng.choice(FILLERS), "\n\n" if not extras or rng.random() < 0.7 else "\n"))
         elif b[0] == "HR":
             out.append("----\n")
+        elif b[2] == 0:
+            out.append("%s%s\n" % (b[1], rng.choice(["", " ", "  "])))     # a marker alone on its line: an empty item
         else:
             out.append("%s L%d %s\n" % (b[1], b[2], rng.choice(FILLERS)))
     return "".join(out)
@@ -157,12 +159,12 @@ def abs_item(it):
     own = "".join(x if isinstance(x, str) else (flat_text(x) if x["k"] != "LIST" else "") for x in it.get("c", []))
     lid = ids(own, "L")
     subs = [x for x in it.get("c", []) if not isinstance(x, str) and x["k"] == "LIST"]
-    return ["ITEM", it.get("s", ""), lid[0] if lid else -1,
+    return ["ITEM", it.get("s", ""), lid[0] if lid else (0 if not own.strip() else -1),
             [["LIST", s.get("s", ""), [abs_item(y) for y in s.get("c", []) if not isinstance(y, str) or y.strip()]] for s in subs]]
 
 
 # ------------------------------------------------------------ generators
-def gen_doc(rng, n, with_lists=True):
+def gen_doc(rng, n, with_lists=True, empties=False):
     doc = []
     hid = pid = lid = 0
     for _ in range(n):
@@ -180,6 +182,8 @@ def gen_doc(rng, n, with_lists=True):
                 lid += 1
                 depth = rng.randint(1, 4)
                 doc.append(["LI", "".join(rng.choice("*#") for _ in range(depth)), lid])
+                if empties and rng.random() < 0.15:
+                    doc[-1][2] = 0          # an empty item (id 0): nothing but the marker on the line
         else:
             pid += 1
             doc.append(["T", pid])
@@ -215,7 +219,9 @@ def walk_doc(rng):
     lid = 0
     for m in marker_walk(rng, rng.randint(3, 8)):
         lid += 1
-        doc.append(["LI", m, lid])
+        doc.append(["LI", m, lid if rng.random() > 0.1 else 0])
+        if rng.random() < 0.1:
+            doc.append(["T", 100 + lid])    # a plain paragraph line directly after a list line
     return doc
 
 
@@ -319,7 +325,7 @@ def run(run):
     quick = run.tier == "quick"
     docs = list(exhaustive_headings(3 if quick else 4)) + list(exhaustive_lists(2 if quick else 3))
     for _ in range(1000 if quick else 8000):
-        docs.append(gen_doc(rng, rng.randint(1, 12)))
+        docs.append(gen_doc(rng, rng.randint(1, 12), empties=True))
     for _ in range(200 if quick else 3000):
         docs.append(gen_doc(rng, rng.randint(1, 10), with_lists=False))
     for _ in range(1000 if quick else 10000):
